@@ -137,6 +137,24 @@ package pcs
 //@   ensures err == nil ==> qe.Version == requiredQEIdentityVersion && qe.TCBEvaluationDataNumber >= policy.MinTCBEvaluationDataNumber
 //@   ensures-local err == nil ==> !ufb("timeAfter", issueDate, ts) && uf("durNanos", uf("timeSub", ts, issueDate)) <= int(policy.TCBValidityPeriod) * 24 * 3600000000000
 
+//@ ghost func LE32(s []byte, o int) int { return int(s[o]) + 256*int(s[o+1]) + 65536*int(s[o+2]) + 16777216*int(s[o+3]) }
+
+//@ func QEIdentity.verify
+//@   props C18
+//@   safety nil bounds
+//@   modifies nothing
+//@   requires qe != nil && report != nil
+//@   ensures err == nil ==> qe.ISVProdID == report.isvProdID
+//@   ensures-local err == nil ==> expectedMrSigner == report.mrSigner
+//@   ensures-local err == nil ==> bytesId(rawMiscselect) == uf("hexDecode.0", qe.MiscSelect) && bytesId(rawMiscselectMask) == uf("hexDecode.0", qe.MiscSelectMask) && len(rawMiscselect) == 4 && len(rawMiscselectMask) == 4
+//@   ensures-local err == nil ==> bytesId(rawAttributes) == uf("hexDecode.0", qe.Attributes) && bytesId(rawAttributesMask) == uf("hexDecode.0", qe.AttributesMask) && len(rawAttributes) == 16 && len(rawAttributesMask) == 16
+//@   ensures-local err == nil ==> int(expectedMiscselect) == LE32(rawMiscselect, 0) && int(miscselectMask) == LE32(rawMiscselectMask, 0) && report.miscSelect & miscselectMask == expectedMiscselect
+//@   ensures-local err == nil ==> int(expectedFlags) == LE32(rawAttributes, 0) + 4294967296*LE32(rawAttributes, 4) && int(flagsMask) == LE32(rawAttributesMask, 0) + 4294967296*LE32(rawAttributesMask, 4) && uint64(report.attributes.Flags) & flagsMask == expectedFlags
+//@   ensures-local err == nil ==> int(expectedXfrm) == LE32(rawAttributes, 8) + 4294967296*LE32(rawAttributes, 12) && int(xfrmMask) == LE32(rawAttributesMask, 8) + 4294967296*LE32(rawAttributesMask, 12) && report.attributes.Xfrm & xfrmMask == expectedXfrm
+//@   ensures-local err == nil ==> matchedTCBLevel != nil && matchedTCBLevel.Status == StatusUpToDate && matchedTCBLevel.TCB.ISVSVN <= report.isvSvn
+//@   loop 1 invariant matchedTCBLevel == nil
+//@   note the QE report is accepted only if MRSIGNER and ISVPRODID equal the signed identity's, MISCSELECT and ATTRIBUTES under the identity's OWN masks equal the identity's values, and the first TCB level not above the report's ISVSVN is UpToDate
+
 //@ func TCBInfo.validateFMSPC
 //@   props C18
 //@   modifies nothing
